@@ -94,8 +94,8 @@ def missingFromTable (f : Fork) (t : OpTable) : List Nat :=
 /-- The converse direction of "defined only if the fork has it" — which the property does not ask for, but which matters
 to the analysis properties: the London and Shanghai tables define every opcode of their fork; the Cancun table lacks
 exactly BLOBHASH 0x49, BLOBBASEFEE 0x4a, TLOAD 0x5c, TSTORE 0x5d (finding D27: the analysis treats these real Cancun
-opcodes as halting invalid instructions). Kernel evaluation over the regenerated tables: the day etk adds the rows this
-theorem stops checking and the finding is obsolete. -/
+opcodes as halting invalid instructions). Kernel evaluation over the regenerated tables: the day etk adds the rows,
+this statement stops checking and the finding is obsolete. -/
 theorem C17_fork_completeness :
     missingFromTable .london Gen.london = [] ∧ missingFromTable .shanghai Gen.shanghai = [] ∧
     missingFromTable .cancun Gen.cancun = [0x49, 0x4a, 0x5c, 0x5d] := by decide +kernel
